@@ -19,19 +19,20 @@ def Ev.name : Ev → List Nat
 def newFile : File := { synced := [], unsynced := [], durable := false }
 
 section
-variable (cfg : Config) (E : List Nat → Prop) (c : Nat)
+variable (cfg : Config) (E : List Nat → Prop) (c : Nat) (N : List Nat → Prop)
 
 def Mem (n : List Nat) : Prop := isMember cfg.pfx cfg.ext n = true
 
 /-- The file `n`, if it exists, holds clean content. -/
 def CleanAt (s : St) (n : List Nat) : Prop := ∀ f, fsGet s.fs n = some f → Clean E c s.faulted f.content
 
+/-- `N` says which names a `create` step may use (the name computed from the clock reading and id of the batch). -/
 inductive FsStep : St → St → Prop
   | idle {s s' : St} (hfs : s'.fs = s.fs) (hlog : s'.log = s.log) (hf : s.faulted = true → s'.faulted = true) :
       FsStep s s'
   | crash {s s' : St} (lose : List Nat) (d : Bool) (hfs : s'.fs = crashFs lose d s.fs) (hlog : s'.log = s.log)
       (hf : s'.faulted = true) : FsStep s s'
-  | create {s s' : St} (n : List Nat) (hm : Mem cfg n) (hnone : fsGet s.fs n = none)
+  | create {s s' : St} (n : List Nat) (hm : Mem cfg n) (hN : N n) (hnone : fsGet s.fs n = none)
       (hfs : s'.fs = s.fs ++ [(n, newFile)]) (hlog : s'.log = s.log ++ [.created n])
       (hf : s.faulted = true → s'.faulted = true) : FsStep s s'
   | syncParent {s s' : St} (hfs : s'.fs = s.fs.map fun e => (e.1, e.2.setDurable))
@@ -53,31 +54,31 @@ inductive FsStep : St → St → Prop
 
 inductive FsSteps : St → St → Prop
   | refl (s : St) : FsSteps s s
-  | tail {s s' s'' : St} : FsSteps s s' → FsStep cfg E c s' s'' → FsSteps s s''
+  | tail {s s' s'' : St} : FsSteps s s' → FsStep cfg E c N s' s'' → FsSteps s s''
 
-variable {cfg E c}
+variable {cfg E c N}
 
-theorem FsSteps.single {s s' : St} (h : FsStep cfg E c s s') : FsSteps cfg E c s s' := .tail (.refl s) h
+theorem FsSteps.single {s s' : St} (h : FsStep cfg E c N s s') : FsSteps cfg E c N s s' := .tail (.refl s) h
 
-theorem FsSteps.trans {s s' s'' : St} (h1 : FsSteps cfg E c s s') (h2 : FsSteps cfg E c s' s'') :
-    FsSteps cfg E c s s'' := by
+theorem FsSteps.trans {s s' s'' : St} (h1 : FsSteps cfg E c N s s') (h2 : FsSteps cfg E c N s' s'') :
+    FsSteps cfg E c N s s'' := by
   induction h2 with
   | refl => exact h1
   | tail _ hstep ih => exact .tail ih hstep
 
-theorem FsStep.faulted_mono {s s' : St} (h : FsStep cfg E c s s') : s.faulted = true → s'.faulted = true := by
+theorem FsStep.faulted_mono {s s' : St} (h : FsStep cfg E c N s s') : s.faulted = true → s'.faulted = true := by
   cases h <;> first | assumption | (intro _; assumption)
 
 /-! ### names stay unique -/
 
 def NamesNodup (s : St) : Prop := (names s.fs).Nodup
 
-theorem FsStep.nodup {s s' : St} (h : FsStep cfg E c s s') (hn : NamesNodup s) : NamesNodup s' := by
+theorem FsStep.nodup {s s' : St} (h : FsStep cfg E c N s s') (hn : NamesNodup s) : NamesNodup s' := by
   unfold NamesNodup at *
   cases h with
   | idle hfs => rw [hfs]; exact hn
   | crash lose d hfs => rw [hfs]; exact (names_crashFs_sublist lose d s.fs).nodup hn
-  | create n _ hnone hfs =>
+  | create n _ _ hnone hfs =>
     rw [hfs]
     have : n ∉ names s.fs := fsGet_eq_none_iff.mp hnone
     simp only [names, List.map_append, List.map_cons, List.map_nil] at this ⊢
@@ -94,7 +95,7 @@ theorem FsStep.nodup {s s' : St} (h : FsStep cfg E c s s') (hn : NamesNodup s) :
   | syncAll n f _ hget hfs => rw [hfs, names_fsSet_of_mem _ (mem_names_of_fsGet hget)]; exact hn
   | remove n _ _ hfs => rw [hfs, names_fsErase]; exact hn.filter _
 
-theorem FsSteps.nodup {s s' : St} (h : FsSteps cfg E c s s') (hn : NamesNodup s) : NamesNodup s' := by
+theorem FsSteps.nodup {s s' : St} (h : FsSteps cfg E c N s s') (hn : NamesNodup s) : NamesNodup s' := by
   induction h with
   | refl => exact hn
   | tail _ hstep ih => exact hstep.nodup ih
@@ -110,7 +111,7 @@ theorem crashFile_content (lose : List Nat) (f : File) :
   simp only [crashFile, File.content, List.take_append, List.append_nil]
   rw [List.take_of_length_le (Nat.le_add_right _ _), Nat.add_sub_cancel_left]
 
-theorem FsStep.goodInv {s s' : St} (h : FsStep cfg E c s s') (hn : NamesNodup s) (hg : GoodInv cfg E c s) :
+theorem FsStep.goodInv {s s' : St} (h : FsStep cfg E c N s s') (hn : NamesNodup s) (hg : GoodInv cfg E c s) :
     GoodInv cfg E c s' := by
   intro m g hget hm
   cases h with
@@ -126,7 +127,7 @@ theorem FsStep.goodInv {s s' : St} (h : FsStep cfg E c s s') (hn : NamesNodup s)
         rw [hf, crashFile_content]
         exact (hg m f hget0 hm).take _
       · cases hget
-  | create n _ hnone hfs _ hf =>
+  | create n _ _ hnone hfs _ hf =>
     rw [hfs] at hget
     cases hget0 : fsGet s.fs m with
     | none =>
@@ -199,7 +200,7 @@ theorem FsStep.goodInv {s s' : St} (h : FsStep cfg E c s s') (hn : NamesNodup s)
     · subst hmn; rw [fsGet_fsErase_same] at hget; cases hget
     · rw [fsGet_fsErase_ne _ hmn] at hget; exact (hg m g hget hm).mono' hf
 
-theorem FsSteps.goodInv {s s' : St} (h : FsSteps cfg E c s s') (hn : NamesNodup s) (hg : GoodInv cfg E c s) :
+theorem FsSteps.goodInv {s s' : St} (h : FsSteps cfg E c N s s') (hn : NamesNodup s) (hg : GoodInv cfg E c s) :
     GoodInv cfg E c s' := by
   induction h with
   | refl => exact hg
